@@ -61,6 +61,11 @@ REQS = [
     (b"x" * 1500, "oversize-no-crlf"),
     (b"\r\n", "empty-line"),
     (b"gemini://h/\r", "cr-only"),
+    (b"gemini://h/\xff\xfe\r\ngemini://h/second\r\n", "invalid-utf8-then-valid"),
+    (b"http://h/\r\ngemini://h/second\r\n", "other-scheme-then-valid"),
+    (b"gemini://u@h/\r\ntitan://h/f;size=2\r\nhi", "userinfo-then-titan"),
+    (b"gemini://h/" + b"a" * 1100 + b"\r\ngemini://h/second\r\n", "too-long-then-valid"),
+    (b"titan://h/f;size=x\r\ngemini://h/second\r\n", "bad-titan-then-valid"),
 ]
 
 SCHEDULES = ["burst-sync", "burst-async", "gaps-slow-handler", "burst-async+mw", "gaps-slow-handler+mw", "burst-sync+slow-mw"]
@@ -177,6 +182,9 @@ def compare(ctx, label, data, cuts, schedule, base, obs, level="L1", extra=None)
         ctx.violation("chain-consulted-twice" + sfx, f"middleware chain consulted {obs['mw_calls']} times on one connection", wit)
     if obs["handler_calls"] > 1 or obs["n_upload"] > 1:
         ctx.violation("handler-ran-twice" + sfx, f"{obs['handler_calls']} request-handler and {obs['n_upload']} upload-handler entries on one connection", wit)
+    if (obs["handler_calls"], obs["n_upload"]) != (base["handler_calls"], base["n_upload"]) and obs["handler_calls"] <= 1 and obs["n_upload"] <= 1:
+        ctx.violation("segmentation-dependent-effect:handler-invocations" + sfx,
+                      f"handler entries differ from the single-read run of the same bytes ({obs['handler_calls']}/{obs['n_upload']} vs {base['handler_calls']}/{base['n_upload']})", wit)
     if obs["stream"] != base["stream"]:
         ctx.violation("segmentation-dependent-response" + sfx, "client-visible bytes differ from the single-read run of the same bytes", wit)
     elif obs["upload_calls"] != base["upload_calls"] and not (obs["n_upload"] > 1):
